@@ -22,6 +22,10 @@ Z = {"base": 0, "ppm": 0, "pdelta": 40, "sdelta": 10, "mpp": 2, "h0": 100}
 Z1 = H("h1", 1, 6, 10, h0 + pd + 10, pd + 10)
 Z2 = H("h1", 1, 4, 10, h0 + pd + 20, pd + 20)
 ZLOW = H("h1", 1, 4, 9, h0 + pd + 30, pd + 30)
+# three parts, no two of which fund the set
+T1 = H("h1", 1, 4, 11, h0 + pd + 11, pd + 11)
+T2 = H("h1", 1, 4, 11, h0 + pd + 12, pd + 12)
+T3 = H("h1", 1, 3, 11, h0 + pd + 13, pd + 13)
 AL1 = H("h1", 3, 6, 11, h0 + pd + 10, pd + 10, decl=10, decl_len=-2)
 AL2 = H("h1", 3, 5, 11, h0 + pd + 20, pd + 20, decl=10, decl_len=-2)
 AL3 = H("h1", 3, 5, 11, h0 + pd + 20, pd + 20, decl=9, decl_len=-2)
@@ -38,6 +42,8 @@ MODELS = {
     "base_amtless": M([AL1, AL2, AL3], parts=1, clock=3),
     "base_foreign": M([G1, G2, FOREIGN], hashes=("h1", "h2"), parts=1, clock=3),
     "base_zero":   M([Z1, Z2, ZLOW], cfg=Z, parts=1, clock=3),
+    # staggered arrivals of a set that stays incomplete for a while (the MPP timeout runs from the first part)
+    "base_thirds": M([T1, T2, T3], parts=1, clock=4),
     # one crash anywhere; every stored history
     "restart":     M([G1, G2], parts=2, crash=1, clock=4),
     # two successive fully funding sets: old lifecycle's tail vs new lifecycle
